@@ -164,6 +164,7 @@ func fixedCases() []corr.Case {
 	// known answers of XXH64 (reference implementation): "", "a", and three keys as the package hashes them today
 	out = append(out, mk("fixed-xxhash-known-answers", "remap 73", "xhash str::17241709254077376921", "xhash str:61:15154266338359012955",
 		"xhash str:757365723a3432:15861654238046376386", "xhash i64:-1:9642548396912002761", "xhash u8:7:12208272383309036471", "xhash bytes:61:15154266338359012955"))
+	out = append(out, mk("fixed-bulk", "cont map 73 simple", "bset 0 2000", "bdel 0 1600", "bprobe 1600 400", "bprobe 0 2000", "bset 1 1", "bprobe 0 3", "cont map 3 xhash", "bset 0 5", "bdel 0 0"))
 	out = append(out,
 		mk("fixed-malformed", "reset", "search 1", "remap", "remap x", "remap 0", "search 1", "remap 3", "search", "search -1", "search 18446744073709551616",
 			"simple u8:256:0", "simple i8:-129:0", "simple i8:-0:0", "simple str:6:0", "simple str:6G:0", "simple u8:1", "simple q:1:0", "xhash other:1:0", "frob",
@@ -422,6 +423,20 @@ func genCase(r *rng.R, tier string, i int) corr.Case {
 		return genWideLRU(r, m)
 	case cls >= 76 && cls < 92: // lock groups against one unsharded locker, all APIs mixed on the same keys
 		return genLocks(r, m)
+	case cls == 93: // thousands of keys on a sharded container and its unsharded twin: mass insertion, mass deletion, probes
+		kind := r.Pick("map", "map", "lru", "tlru")
+		cn := []uint64{1, 3, 64, 73, 211}[r.Intn(5)]
+		total := r.Range(1500, 3000)
+		for _, c := range minedConstants() {
+			if c >= 64 && c <= 6000 && r.Chance(1, 3) {
+				total = int(c)*2 - r.Intn(3) // twice a threshold written into the source: grow past it, shrink far below it
+			}
+		}
+		lines := []string{fmt.Sprintf("cont %s %d simple", kind, cn), fmt.Sprintf("bset 0 %d", total), fmt.Sprintf("bprobe 0 %d", total+5)}
+		gone := total * r.Range(70, 95) / 100
+		lines = append(lines, fmt.Sprintf("bdel 0 %d", gone), fmt.Sprintf("bprobe 0 %d", total+5), fmt.Sprintf("bprobe %d %d", gone, total-gone),
+			fmt.Sprintf("bset %d %d", gone/2, 50), fmt.Sprintf("bprobe 0 %d", total), fmt.Sprintf("bdel 0 %d", total+5), fmt.Sprintf("bprobe 0 %d", total))
+		return corr.Case{Tag: "bulk-" + kind, Lines: lines}
 	case cls == 92: // concurrent first users of a fresh router / xxhash container (child process)
 		big := []uint64{73, 1000, 4096, 50000, 200000, 1 << 20}
 		return corr.Case{Tag: "first-use", Lines: []string{"reset", fmt.Sprintf("firstuse %d %d %d", big[r.Intn(len(big))], r.Range(5, 30), r.Range(2, 8))}}
